@@ -142,7 +142,7 @@ theorem repOnly_mkSegments (L : Layout) (ts : List Int) (n : Nat)
   let segs : List Seg := (List.range n).map fun i =>
     { start := ts.getD i 0, stp := ts.getD (i + 1) 0, to := (back i).toList ++ [nextDest n i], await := [],
       ty := tyAt ts i }
-  have hbuild : buildSegs ts (sts n).info ts (sts n).info = some segs := by
+  have hbuild : buildSegs ts (sts n).info 0 ts (sts n).info = some segs := by
     apply buildSegs_eq
     · simp [sts, hlen]
     · simp [sts, segs]
@@ -163,7 +163,9 @@ theorem repOnly_mkSegments (L : Layout) (ts : List Int) (n : Nat)
         rw [List.getD_eq_getElem?_getD, List.getElem?_eq_getElem h1]; rfl
       obtain ⟨_, _, g3, g4⟩ := hseg i hi _ hse
       refine ⟨_, _, (back i).toList ++ [nextDest n i], [], hss, hse, ?_, ?_⟩
-      · apply cleanTo_repRaw _ _ _ i g4
+      · simp only [Nat.zero_add]
+        rw [cleanTo_noNav _ _ (nav1Of_repRaw _ _ _)]
+        apply cleanTo_repRaw _ _ _ i g4
         · unfold nextDest
           by_cases h : i + 1 = n <;> simp [h]
         · exact g3
